@@ -13,6 +13,7 @@ Decided (shape engine: spaces + dimensions + provenance tags)
   U3  _waveform_durations: (arg-max - arg-min over samples) at the peak channel, / sample_rate x 1e3 -> milliseconds
   U4  get_depths: sum(y x f^2) / sum(f^2) over the stored slots with f the first principal component, y the y-coordinate of the
       slot's channel for the spike's template -> micrometres per spike
+  +   U1-U4 also: no result is memoised (early return from storage that outlives the call) under a key that ignores one of the arguments
 Not decided: numeric equality, NaN propagation, the clipping of negative feature values.
 """
 import ast
@@ -53,6 +54,23 @@ def run(ctx):
     nrep = 0
     # ---------------------------------------------------------------- U1
     gat = meth('get_amplitudes_true')
+    # the summaries are functions of their arguments AND of the current assignments: a result memoised under a key that ignores an argument answers a later call
+    # (another unit factor, another table) with the first call's values
+    for rule, names in (('C09.U1', ('get_amplitudes_true',)), ('C09.U2', ('_amplitudes', '_channels')), ('C09.U3', ('_waveform_durations',)), ('C09.U4', ('get_depths',))):
+        stale = []
+        n_f = 0
+        for nm in names:
+            for f_ in repo.transparent_closure(meth(nm)):
+                n_f += 1
+                for cache, key, ret, missing in q.memo_sites(f_):
+                    if missing:
+                        stale.append((f_, ret, cache, key, missing))
+        if stale:
+            f_, ret, cache, key, missing = stale[0]
+            ctx.violated(rule, f_, ret, '%s returns a result memoised in `%s` under the key `%s`, which ignores the argument(s) %s: a second call that differs only there gets the values of the first call' %
+                         (f_.name, cache, unparse(key), ', '.join(missing)))
+        else:
+            ctx.holds(rule, meth(names[0]), 'no result of %s is memoised under a key that ignores one of its arguments (%d functions)' % (' / '.join(names), n_f), 'memoisation')
     for use, W in (('templates', Tmpl), ('clusters', Clu)):
         S = Shape(repo, selfattrs=model_attrs(), inline_depth=3)
         res = S.result(gat, {'self': UNK, 'sample2unit': F, 'use': StrT(use)})
